@@ -250,7 +250,10 @@ fn finalize(ctx: &Ctx, rep: Report, wall: f64) -> i32 {
     cov.insert("evaluations".into(), json!(rep.evaluations.max(1)));
     cov.insert("distinct_nontrivial".into(), json!(rep.distinct_nontrivial));
     cov.insert("rule".into(), json!(rep.rule));
-    cov.insert("exhaustive".into(), json!(rep.exhaustive && rep.engine_failures.is_empty()));
+    cov.insert("exhaustive".into(), json!(rep.exhaustive && rep.engine_failures.is_empty() && !stopped_early()));
+    if stopped_early() {
+        cov.insert("stopped_early".into(), json!(format!("the enumeration was cut short after {} violating cases (the verdict is 'violated' either way)", VIOLATION_CAP)));
+    }
     cov.insert("samples".into(), json!(if rep.samples.is_empty() { vec![json!("none")] } else { rep.samples.clone() }));
     cov.insert("violation_classes".into(), json!(classes.len()));
     cov.insert("violating_cases".into(), json!(total));
